@@ -985,6 +985,7 @@ func main() {
 	iters := flag.Int("n", 20, "iterations per arity")
 	arity := flag.Int("arity", -1, "restrict to one arity (0..12)")
 	stats := flag.Bool("stats", false, "print per-method ok/panic counts to stderr")
+	section := flag.String("section", "", "run only one section: resource")
 	flag.Parse()
 
 	out := bufio.NewWriter(os.Stdout)
@@ -994,6 +995,16 @@ func main() {
 		h.stats = map[string][2]int{}
 	}
 	sanity()
+	if *section == "resource" {
+		for it := 0; it < *iters*60; it++ {
+			rng := rand.New(rand.NewSource(*seed*1000003 + int64(it)))
+			h.ctx = fmt.Sprintf("resource iter=%d", it)
+			resourceSection(h, rng)
+			h.broken = false
+		}
+		fmt.Fprintf(out, "SUMMARY cases=%d fails=%d arities=resource\n", h.cases, h.fails)
+		return
+	}
 
 	var arities []int
 	if *arity >= 0 && *arity <= maxArity {
@@ -2463,11 +2474,11 @@ func resourceSection(h *H, rng *rand.Rand) {
 		}
 		idb[i] = ecs.ResourceTypeID(wb, typeTable[t].rt)
 	}
-	for step := 0; step < 14; step++ {
+	for step := 0; step < 22; step++ {
 		i := rng.Intn(k)
 		t := ts[i]
 		h.ctx = "resource type=" + typeTable[t].name
-		ops := []string{"ID", "Add", "Remove", "Get", "Has", "Get"}
+		ops := []string{"ID", "Add", "Remove", "Get", "Has", "Get", "ExtAdd", "ExtRemove", "Get", "Has", "Reset"}
 		op := ops[rng.Intn(len(ops))]
 		m := "Resource." + op
 		switch op {
@@ -2505,6 +2516,38 @@ func resourceSection(h *H, rng *rand.Rand) {
 				h.ok(pa == ifacePtr(wa.Resources().Get(idb[i])), m, "generic Get differs from Resources().Get on the same world")
 				if pa != nil && pb != nil {
 					h.ok(*(*int64)(pa) == *(*int64)(pb), m, "value differs")
+				}
+			}
+		case "ExtAdd":
+			// the resource is added behind the mapper's back, through the world's own API
+			v := randVals(rng, []int{t})[0]
+			var oa, ob interface{}
+			ra := try(func() {
+				oa = typeTable[t].mk(v)
+				wa.Resources().Add(ecs.ResourceTypeID(wa, typeTable[t].rt), oa)
+			})
+			rb := try(func() {
+				ob = typeTable[t].mk(v)
+				wb.Resources().Add(idb[i], ob)
+			})
+			if h.samePanic(m, ra, rb) {
+				last[i], lastB[i] = ifacePtr(oa), ifacePtr(ob)
+			}
+		case "ExtRemove":
+			ra := try(func() { wa.Resources().Remove(ecs.ResourceTypeID(wa, typeTable[t].rt)) })
+			rb := try(func() { wb.Resources().Remove(idb[i]) })
+			if h.samePanic(m, ra, rb) {
+				last[i], lastB[i] = nil, nil
+			}
+		case "Reset":
+			if rng.Intn(3) != 0 {
+				continue
+			}
+			ra := try(func() { wa.Reset() })
+			rb := try(func() { wb.Reset() })
+			if h.samePanic(m, ra, rb) {
+				for j := range last {
+					last[j], lastB[j] = nil, nil
 				}
 			}
 		case "Has":
